@@ -181,11 +181,18 @@ def c_labels(ls):
 
 
 def budget_value(b):
-    """budget JSON -> Python number"""
+    """budget JSON -> Python number; optional third element: float | npfloat | npint | fraction"""
     k = b[0]
     if k == "num":
         fr = Fraction(b[1][0], b[1][1])
-        return int(fr) if fr.denominator == 1 and len(b) < 3 else float(fr)
+        ty = b[2] if len(b) > 2 else None
+        if ty == "npfloat":
+            return np.float64(float(fr))
+        if ty == "npint":
+            return np.int64(int(fr))
+        if ty == "fraction":
+            return fr
+        return int(fr) if fr.denominator == 1 and ty is None else float(fr)
     return {"nan": float("nan"), "inf": float("inf"), "-inf": float("-inf")}[k]
 
 
@@ -193,7 +200,7 @@ def num(n, d=1, as_float=False):
     fr = Fraction(n, d)
     out = ["num", [fr.numerator, fr.denominator]]
     if as_float:
-        out.append("float")
+        out.append("float" if as_float is True else as_float)
     return out
 
 
@@ -216,6 +223,7 @@ G1 = {"h": HGate, "x": XGate, "s": SGate, "t": TGate, "sx": SXGate, "z": ZGate}
 G2 = {"cx": CXGate, "cz": CZGate, "swap": SwapGate, "ecr": ECRGate, "ch": CHGate, "iswap": iSwapGate}
 P2 = {"rzz": RZZGate, "rxx": RXXGate, "ryy": RYYGate, "crx": CRXGate, "cry": CRYGate, "crz": CRZGate, "cp": CPhaseGate}
 G3 = {"ccx": CCXGate, "cswap": CSwapGate}
+from qiskit.circuit.library import C3XGate  # noqa: E402
 PARAM_GATES = set(P2)
 
 
@@ -249,6 +257,13 @@ def make_op(it):
         return G3[it[1]]()
     if k == "inst2":
         return inst2()
+    if k == "g4":
+        return C3XGate()
+    if k == "inst3":
+        q = QuantumCircuit(3, name="blk3")
+        q.ccx(0, 1, 2)
+        q.reset(1)
+        return q.to_instruction()
     if k == "barrier":
         return Barrier(len(it[-1]))
     if k == "qpd2":
@@ -261,8 +276,31 @@ def make_op(it):
     raise ValueError(it)
 
 
-def build_circuit(nq, items, clbits=None):
-    qc = QuantumCircuit(nq)
+def rand_layout(rng, nq):
+    """None (one register) or a split of the nq qubits into registers and loose qubits, in order"""
+    if nq < 2 or rng.integers(0, 2):
+        return None
+    out, left, r = [], nq, 0
+    while left > 0:
+        n = int(rng.integers(1, left + 1))
+        if n == nq:
+            n = nq - 1
+        out.append(["loose", n] if rng.integers(0, 3) == 0 else ["reg", n])
+        left -= n
+    return out
+
+
+def build_circuit(nq, items, clbits=None, layout=None):
+    if layout is None:
+        qc = QuantumCircuit(nq)
+    else:
+        qc = QuantumCircuit()
+        for j, (k, n) in enumerate(layout):
+            if k == "loose":
+                qc.add_bits([Qubit() for _ in range(n)])
+            else:
+                qc.add_register(QuantumRegister(n, f"r{j}"))
+        assert qc.num_qubits == nq
     if clbits == "creg":
         qc.add_register(ClassicalRegister(1, "c"))
     elif clbits == "creg2":
@@ -334,7 +372,7 @@ def rand_labels(rng, nq, nl=None):
     return labels
 
 
-def rand_items(rng, nq, labels=None, n=None, allow_wide_local=True):
+def rand_items(rng, nq, labels=None, n=None, allow_wide_local=True, preplaced=False):
     """random instruction list that is VALID for partitioning along `labels` (None: anything supported):
     supported 1q/2q gates anywhere, barriers anywhere, 3-qubit and unsupported 2-qubit operations only
     inside one partition."""
@@ -342,7 +380,20 @@ def rand_items(rng, nq, labels=None, n=None, allow_wide_local=True):
     items = []
     same = (lambda qs: len({labels[q] for q in qs}) == 1) if labels is not None else (lambda qs: False)
     for _ in range(n):
-        r = int(rng.integers(0, 12))
+        r = int(rng.integers(0, 14))
+        if r == 12 and nq >= 2 and preplaced:
+            a, b = (int(x) for x in rng.permutation(nq)[:2])
+            items.append(["qpd2", pick(rng, ["cx", "cz", "rzz", "move"]), pick(rng, [None, "pre", "cut_cx"]), [a, b]])
+            continue
+        if r == 13 and nq >= 4 and allow_wide_local:
+            qs = [int(x) for x in rng.permutation(nq)[: int(pick(rng, [3, 4]))]]
+            if same(qs):
+                items.append(["g4", qs] if len(qs) == 4 else ["inst3", qs])
+            else:
+                items.append(["g1", "x", [qs[0]]])
+            continue
+        if r >= 12:
+            r = int(rng.integers(0, 12))
         if r < 3 or nq == 1:
             items.append(["g1", list(G1)[int(rng.integers(0, len(G1)))], [int(rng.integers(0, nq))]])
             continue
@@ -384,7 +435,9 @@ def spanning_pair(rng, labels, k=2):
 
 def offending_item(rng, cls, qs):
     if cls == "wide_gate":
-        return ["g3", "ccx" if rng.integers(0, 2) else "cswap", qs]
+        if len(qs) == 4:
+            return ["g4", qs]
+        return pick(rng, [["g3", "ccx", qs], ["g3", "cswap", qs], ["inst3", qs]])
     if cls == "unbound":
         return ["p2", list(P2)[int(rng.integers(0, len(P2)))], None, qs] if rng.integers(0, 3) else ["u2", None, qs]
     if cls == "unsupported":
@@ -411,8 +464,15 @@ def kind(name):
 # --------------------------------------------------------------------------------------
 # numeric limits
 # --------------------------------------------------------------------------------------
-BAD_LT1 = [num(0), num(-3), num(1, 2, True), num(0, 1, True), num(-1, 4, True), num(255, 256, True), ["-inf"]]
-GOOD_GE1 = [num(1), num(2), num(7), num(15, 2, True), num(1, 1, True), num(40), ["inf"]]
+_ULP = 2 ** 53
+BAD_LT1 = [num(0), num(-3), num(1, 2, True), num(0, 1, True), num(-1, 4, True), num(255, 256, True), ["-inf"],
+           num(_ULP - 1, _ULP, True),                                  # 1 - 2^-53, the largest double below 1
+           ["num", [Fraction(0.999).numerator, Fraction(0.999).denominator], "float"],
+           ["num", [Fraction(0.9999999).numerator, Fraction(0.9999999).denominator], "float"],
+           num(1, 2, "npfloat"), num(0, 1, "npint"), num(3, 4, "fraction"), num(_ULP - 1, _ULP, "npfloat")]
+GOOD_GE1 = [num(1), num(2), num(7), num(15, 2, True), num(1, 1, True), num(40), ["inf"],
+            num(1, 1, "npfloat"), num(3, 1, "npint"), num(5, 4, "fraction"), num(_ULP + 2, _ULP, True)]
+BAD_LT0 = [num(-1), num(-7), num(-1, 2, True), ["-inf"], num(-1, _ULP, True), num(-1, 1, "npint")]
 
 
 def pick(rng, l):
@@ -500,7 +560,7 @@ class KSettings:
         for _ in range(q(24)):
             r = int(rng.integers(0, 4))
             g = pick(rng, BAD_LT1) if r == 0 else pick(rng, GOOD_GE1 + [["nan"]])
-            bj = pick(rng, [num(-1), num(-7), num(-1, 2, True), ["-inf"]]) if r == 1 else pick(rng, [None, num(0), num(5), num(10000)])
+            bj = pick(rng, BAD_LT0) if r == 1 else pick(rng, [None, num(0), num(5), num(10000), num(0, 1, True)])
             yield ("gamma_lt1" if r == 0 else "backjumps_negative" if r == 1 else "valid", dict(g=g, bj=bj))
 
 
@@ -782,18 +842,18 @@ def pcq_classes(labels, insts, nq):
 def gen_partition_case(rng, classes):
     """common generator for pcq / partition_problem: (cls, nq, items, labels)"""
     cls = pick(rng, classes)
-    nq = int(rng.integers(1, 6))
+    nq = int(rng.integers(1, 7))
     labels = rand_labels(rng, nq)
-    items = rand_items(rng, nq, labels)
+    items = rand_items(rng, nq, labels, preplaced=True)
     if cls in ("wide_gate", "unbound", "unsupported"):
-        qs = spanning_pair(rng, labels, 3 if cls == "wide_gate" else 2)
+        width = int(pick(rng, [3, 3, 4])) if cls == "wide_gate" else 2
+        qs = spanning_pair(rng, labels, width)
         if qs is None:
-            nq = 3 if cls == "wide_gate" else 2
-            nq = int(rng.integers(nq, 6))
+            nq = int(rng.integers(width, 7))
             labels = rand_labels(rng, nq, 2)
             labels[0], labels[1] = LABEL_POOL[0], LABEL_POOL[1]
-            items = rand_items(rng, nq, labels)
-            qs = spanning_pair(rng, labels, 3 if cls == "wide_gate" else 2)
+            items = rand_items(rng, nq, labels, preplaced=True)
+            qs = spanning_pair(rng, labels, width)
         items, _ = insert_random(rng, items, offending_item(rng, cls, qs))
     elif cls == "label_count":
         d = int(pick(rng, [-1, 1, 2]))
@@ -807,7 +867,7 @@ class KPcq:
     finding = "F12"
 
     def run(self, desc):
-        qc = build_circuit(desc["nq"], desc["items"])
+        qc = build_circuit(desc["nq"], desc["items"], layout=desc.get("layout"))
         labels = [untag(t) for t in desc["labels"]]
         a = dict(nq=qc.num_qubits, labels=intern_labels(labels), insts=abs_insts(qc), inplace=desc["inplace"])
         impl = observe(partition_circuit_qubits, [qc, labels], dict(inplace=desc["inplace"]),
@@ -824,7 +884,8 @@ class KPcq:
     def gen(self, rng, q):
         for _ in range(q(110)):
             cls, nq, items, labels = gen_partition_case(rng, ["valid", "valid", "wide_gate", "wide_gate", "unbound", "unsupported", "label_count"])
-            yield cls, dict(nq=nq, items=items, labels=[tagged(l) for l in labels], inplace=bool(rng.integers(0, 2)))
+            yield cls, dict(nq=nq, items=items, labels=[tagged(l) for l in labels], inplace=bool(rng.integers(0, 2)),
+                            layout=rand_layout(rng, nq))
 
 
 @kind("cut_gates")
@@ -833,7 +894,7 @@ class KCutGates:
     finding = "F13"
 
     def run(self, desc):
-        qc = build_circuit(desc["nq"], desc["items"], desc["clbits"])
+        qc = build_circuit(desc["nq"], desc["items"], desc["clbits"], layout=desc.get("layout"))
         before = list(qc.data)
         a = dict(ncregs=len(qc.cregs), nclbits=qc.num_clbits, ops=[gate_desc(i.operation) for i in qc.data],
                  ids=list(desc["ids"]), inplace=desc["inplace"])
@@ -878,7 +939,10 @@ class KCutGates:
                 ids.insert(int(rng.integers(0, len(ids) + 1)), pos)
             elif cls == "undoc:index":
                 ids.insert(int(rng.integers(0, len(ids) + 1)), len(items) + int(rng.integers(0, 3)))
-            yield cls, dict(nq=nq, items=items, ids=ids, clbits=clbits, inplace=bool(rng.integers(0, 2)))
+            if cls == "valid" and rng.integers(0, 4) == 0:
+                ids.insert(int(rng.integers(0, len(ids) + 1)), int(pick(rng, ids)))     # duplicate id (replacements are deferred)
+            yield cls, dict(nq=nq, items=items, ids=ids, clbits=clbits, inplace=bool(rng.integers(0, 2)),
+                            layout=rand_layout(rng, nq))
 
 
 LET = "IXYZ"
@@ -909,18 +973,20 @@ class KPartitionProblem:
     checker = "chk_partition_problem"
 
     def run(self, desc):
-        qc = build_circuit(desc["nq"], desc["items"], desc["clbits"])
+        qc = build_circuit(desc["nq"], desc["items"], desc["clbits"], layout=desc.get("layout"))
         labels = None if desc["labels"] is None else [untag(t) for t in desc["labels"]]
         obs = None if desc["obs"] is None else make_obs(desc["obs"], desc["aslist"])
         a = dict(nq=qc.num_qubits, labels=None if labels is None else intern_labels(labels),
                  obs=None if obs is None else [[len(p), int(p.phase)] for p in obs],
-                 ncregs=len(qc.cregs), nclbits=qc.num_clbits, insts=abs_insts(qc))
+                 ncregs=len(qc.cregs), nclbits=qc.num_clbits, insts=abs_insts(qc),
+                 support=[] if obs is None else [[k for k in range(len(p)) if p.x[k] or p.z[k]] for p in obs])
         return a, observe(partition_problem, [qc, labels, obs])
 
     def emit(self, a, impl):
         labels = "None" if a["labels"] is None else f"(Some {coq(c_labels(a['labels']))})"
         obs = "None" if a["obs"] is None else f"(Some {coq([tuple(o) for o in a['obs']])})"
-        i = Raw(f"(mkPp {a['nq']} {labels} {obs} {a['ncregs']} {a['nclbits']} {coq([c_ginst(g) for g in a['insts']])})")
+        i = Raw(f"(mkPp {a['nq']} {labels} {obs} {a['ncregs']} {a['nclbits']} {coq([c_ginst(g) for g in a['insts']])} "
+                f"{coq([list(x) for x in a['support']])})")
         return (i, c_out(impl["outcome"]), impl["unchanged"])
 
     def classes(self, a):
@@ -938,11 +1004,19 @@ class KPartitionProblem:
             out += pcq_classes(a["labels"], a["insts"], a["nq"])
             if any(a["labels"][q] is None for g in a["insts"] for q in g["qs"]):
                 out.append("none_label_not_idle")
+        # idle group: an observable acts on a qubit labelled None / (automatic labels) on an untouched qubit
+        sizes_ok = a["obs"] is not None and all(o[0] == a["nq"] for o in a["obs"])
+        if sizes_ok and (a["labels"] is None or len(a["labels"]) == a["nq"]):
+            used = {q for g in a["insts"] for q in g["qs"]}
+            idle = [q for q in range(a["nq"]) if (q not in used if a["labels"] is None else a["labels"][q] is None)]
+            if any(q in idle for sup in a["support"] for q in sup):
+                out.append("observable_on_idle_qubit")
         return out
 
     def gen(self, rng, q):
-        C = ["valid", "valid", "valid_auto", "label_count", "observable_size", "observable_phase", "observable_phase",
-             "classical_bits", "wide_gate", "unbound", "unsupported", "none_label_not_idle"]
+        C = ["valid", "valid", "valid_auto", "valid_idle", "label_count", "observable_size", "observable_phase", "observable_phase",
+             "classical_bits", "wide_gate", "unbound", "unsupported", "none_label_not_idle", "idle_explicit", "idle_auto",
+             "auto_plus_offence"]
         for _ in range(q(150)):
             cls0 = pick(rng, C)
             cls, nq, items, labels = gen_partition_case(rng, [cls0 if cls0 in ("wide_gate", "unbound", "unsupported", "label_count") else "valid"])
@@ -950,11 +1024,42 @@ class KPartitionProblem:
             obs = rand_obs(rng, nq, int(rng.integers(1, 5))) if rng.integers(0, 6) else None
             aslist = False
             clbits = None
-            if cls == "valid_auto":
-                # automatic labels: touch every qubit so that no qubit is idle (F4 is C10's business)
+            if cls in ("valid_auto", "auto_plus_offence", "idle_auto"):
+                # automatic labels (connected components; untouched qubits get None)
                 items = [it for it in items if it[0] != "inst2" and not (it[0] == "p2" and it[2] is None)]
-                items += [["g1", "h", [k]] for k in range(nq)]
                 labels = None
+                used = {qq for it in items for qq in it[-1]}
+                idle = [k for k in range(nq) if k not in used]
+                if cls == "idle_auto":
+                    if not idle:
+                        nq += 1
+                        idle = [nq - 1]
+                    obs = rand_obs(rng, nq, int(rng.integers(1, 4)), identity_on=idle)
+                    k = int(rng.integers(0, len(obs)))
+                    s_ = list(reversed(obs[k][1]))
+                    s_[int(pick(rng, idle))] = pick(rng, ["X", "Y", "Z"])
+                    obs[k][1] = "".join(reversed(s_))
+                elif obs is not None:
+                    obs = rand_obs(rng, nq, len(obs), identity_on=idle)      # identity on idle qubits: accepted
+                if cls == "auto_plus_offence":
+                    cls = pick(rng, ["observable_phase", "classical_bits", "observable_size"])
+            if cls in ("valid_idle", "idle_explicit"):
+                # explicit label None on qubits that no instruction touches
+                used = {qq for it in items for qq in it[-1]}
+                idle = [k for k in range(nq) if k not in used]
+                if not idle:
+                    nq += 1
+                    idle = [nq - 1]
+                    labels = list(labels) + [None]
+                labels = [None if k in idle and (k == idle[0] or rng.integers(0, 2)) else l for k, l in enumerate(labels)]
+                none_q = [k for k, l in enumerate(labels) if l is None]
+                obs = rand_obs(rng, nq, int(rng.integers(1, 4)), identity_on=none_q)
+                if cls == "idle_explicit":
+                    k = int(rng.integers(0, len(obs)))
+                    s_ = list(reversed(obs[k][1]))
+                    s_[int(pick(rng, none_q))] = pick(rng, ["X", "Y", "Z"])
+                    obs[k][1] = "".join(reversed(s_))
+                    aslist = bool(rng.integers(0, 3) == 0)
             if cls in ("observable_size", "observable_phase") and obs is None:
                 obs = rand_obs(rng, nq, int(rng.integers(1, 5)))
             if cls == "observable_size":
@@ -981,7 +1086,7 @@ class KPartitionProblem:
                 labels = list(labels)
                 labels[int(pick(rng, used))] = None
             yield cls, dict(nq=nq, items=items, labels=None if labels is None else [tagged(l) for l in labels],
-                            obs=obs, aslist=aslist, clbits=clbits)
+                            obs=obs, aslist=aslist, clbits=clbits, layout=rand_layout(rng, nq))
 
 
 @kind("separate")
@@ -989,7 +1094,7 @@ class KSeparate:
     checker = "chk_separate"
 
     def run(self, desc):
-        qc = build_circuit(desc["nq"], desc["items"])
+        qc = build_circuit(desc["nq"], desc["items"], layout=desc.get("layout"))
         labels = None if desc["labels"] is None else [untag(t) for t in desc["labels"]]
         a = dict(nq=qc.num_qubits, labels=None if labels is None else intern_labels(labels),
                  insts=[[i.operation.name == "barrier", [qc.find_bit(x).index for x in i.qubits]] for i in qc.data])
@@ -1036,7 +1141,8 @@ class KSeparate:
                     items = [["g1", "x", [0]]]
                 used = sorted({qq for it in items for qq in it[-1]})
                 labels[int(pick(rng, used))] = None
-            yield cls, dict(nq=nq, items=items, labels=None if labels is None else [tagged(l) for l in labels])
+            yield cls, dict(nq=nq, items=items, labels=None if labels is None else [tagged(l) for l in labels],
+                            layout=rand_layout(rng, nq))
 
 
 @kind("find_cuts")
@@ -1044,7 +1150,7 @@ class KFindCuts:
     checker = "chk_find_cuts"
 
     def run(self, desc):
-        qc = build_circuit(desc["nq"], desc["items"])
+        qc = build_circuit(desc["nq"], desc["items"], layout=desc.get("layout"))
         opt = OptimizationParameters(seed=desc["seed"], max_gamma=budget_value(desc["g"]),
                                      max_backjumps=None if desc["bj"] is None else budget_value(desc["bj"]))
         dc = DeviceConstraints(desc["W"])
@@ -1077,15 +1183,17 @@ class KFindCuts:
             if cls == "gamma_lt1":
                 g = pick(rng, BAD_LT1)
             elif cls == "backjumps_negative":
-                bj = pick(rng, [num(-1), num(-20)])
+                bj = pick(rng, BAD_LT0)
             elif cls == "wide_gate":
                 if nq < 3:
                     nq = 3
-                items, _ = insert_random(rng, items, ["g3", pick(rng, list(G3)), [int(x) for x in rng.permutation(nq)[:3]]])
+                wd = 4 if nq >= 4 and rng.integers(0, 3) == 0 else 3
+                items, _ = insert_random(rng, items, offending_item(rng, "wide_gate", [int(x) for x in rng.permutation(nq)[:wd]]))
             elif cls == "unbound":
                 a, b = (int(x) for x in rng.permutation(nq)[:2])
                 items, _ = insert_random(rng, items, offending_item(rng, "unbound", [a, b]))
-            yield cls, dict(nq=nq, items=items, g=g, bj=bj, W=int(rng.integers(1, nq + 1)), seed=int(rng.integers(0, 1000)))
+            yield cls, dict(nq=nq, items=items, g=g, bj=bj, W=int(rng.integers(1, nq + 1)), seed=int(rng.integers(0, 1000)),
+                            layout=rand_layout(rng, nq))
 
 
 # --------------------------------------------------------------------------------------
@@ -1127,12 +1235,12 @@ class KGenerate:
         nq = desc["nq"]
         obs = make_obs(desc["obs"])
         if desc["sep"]:
-            qc = build_circuit(nq, desc["items"])
+            qc = build_circuit(nq, desc["items"], layout=desc.get("layout"))
             labels = [untag(t) for t in desc["labels"]]
             pp = partition_problem(qc, labels, obs)
             circuits, observables = dict(pp.subcircuits), dict(pp.subobservables)
         else:
-            circuits, observables = build_circuit(nq, desc["items"]), obs
+            circuits, observables = build_circuit(nq, desc["items"], layout=desc.get("layout")), obs
         m = desc.get("mutate")
         if m and m[0] == "label":
             # relabel the m[2]-th SingleQubitQPDGate of the m[1]-th subcircuit
@@ -1391,7 +1499,10 @@ class KDecompose:
         qc = dq_build(desc)
         ids = [list(g) for g in desc["ids"]]
         maps = None if desc["maps"] is None else list(desc["maps"])
-        a = dict(circ=dq_abs(qc), ids=ids, maps=maps, inplace=desc["inplace"])
+        if maps is not None and desc.get("np_maps"):
+            maps = [m if m is None else np.int64(m) for m in maps]
+        a = dict(circ=dq_abs(qc), ids=ids, maps=None if maps is None else [None if m is None else int(m) for m in maps],
+                 inplace=desc["inplace"])
         args = [qc, ids] + ([] if maps is None else [maps])
         impl = observe(decompose_qpd_instructions, args, dict(inplace=desc["inplace"]),
                        state=lambda: dq_bids(qc) if len(qc.data) == len(a["circ"]) else None)
@@ -1399,7 +1510,7 @@ class KDecompose:
 
     def emit(self, a, impl):
         circ = [Raw("DOther") if x is None else Raw(f"(DQ {x[0]} {x[1]} {c_optn(x[2]).s})") for x in a["circ"]]
-        maps = "None" if a["maps"] is None else f"(Some {coq([c_z(m) for m in a['maps']])})"
+        maps = "None" if a["maps"] is None else f"(Some {coq([c_optz(m) for m in a['maps']])})"
         i = Raw(f"(mkDq {coq(circ)} {coq(a['ids'])} {maps})")
         fin = impl["final"] if impl["final"] is not None else []
         return (i, a["inplace"], c_out(impl["outcome"]), impl["unchanged"], [c_optn(b) for b in fin])
@@ -1420,13 +1531,19 @@ class KDecompose:
         if maps is not None:
             if len(maps) != len(ids):
                 out.append("map_count")
-            elif any(c[k] is not None and not (0 <= m < c[k][1]) for g, m in zip(ids, maps) for k in g):
-                out.append("map_index_range")
+            else:
+                if any(c[k] is not None and m is not None and not (0 <= m < c[k][1]) for g, m in zip(ids, maps) for k in g):
+                    out.append("map_index_range")
+                if any(c[k] is not None and m is None for g, m in zip(ids, maps) for k in g):
+                    out.append("map_entry_none")
+        elif any(x is not None and x[2] is None for x in c):
+            out.append("unset_basis_id")          # map_ids omitted and a gate without basis_id
         return out
 
     def gen(self, rng, q):
         C = ["valid", "valid", "group_size", "not_a_qpd_gate", "bases_differ", "gate_total", "map_count",
-             "map_index_range", "map_index_range", "map_index_range", "undoc:index"]
+             "map_index_range", "map_index_range", "map_index_range", "map_entry_none", "map_entry_none", "unset_basis_id",
+             "unset_basis_id", "undoc:index"]
         for _ in range(q(160)):
             cls = pick(rng, C)
             nq = int(rng.integers(2, 5))
@@ -1457,7 +1574,7 @@ class KDecompose:
                 groups.append(([len(items) - 1], 0))
             if not any(it[0] in ("g1", "g2") for it in items):
                 items.append(["g1", "x", [0]])
-            while cls == "map_index_range" and len(groups) < 2:
+            while cls in ("map_index_range", "map_entry_none", "unset_basis_id") and len(groups) < 2:
                 items.append(["q2", int(rng.integers(0, 4)), None, [0, 1]])
                 groups.append(([len(items) - 1], items[-1][1]))
             order = [int(x) for x in rng.permutation(len(groups))]
@@ -1468,7 +1585,7 @@ class KDecompose:
             base_maps = list(maps)   # aligned with `groups` whatever the class mutation does to ids/maps below
             other = [i for i, it in enumerate(items) if it[0] in ("g1", "g2")]
             j = int(rng.integers(0, len(ids)))
-            if cls == "map_index_range" and len(ids) > 1 and rng.integers(0, 5):
+            if cls in ("map_index_range", "map_entry_none", "unset_basis_id") and len(ids) > 1 and rng.integers(0, 5):
                 j = int(rng.integers(1, len(ids)))      # offending id after at least one good one
             if cls == "group_size":
                 ids[j] = pick(rng, [[], ids[j] + [other[0], other[0]][: 3 - len(ids[j])]])
@@ -1491,19 +1608,31 @@ class KDecompose:
                 maps = maps[:-1] if rng.integers(0, 2) else maps + [0]
             elif cls == "map_index_range":
                 maps[j] = int(pick(rng, [nm[j], nm[j] + 3, -1, -nm[j], 99]))
+            elif cls == "map_entry_none":
+                maps[j] = None
             elif cls == "undoc:index":
                 ids[j] = [len(items) + int(rng.integers(0, 3))]
             use_maps = True
-            if cls in ("valid", "group_size", "not_a_qpd_gate", "gate_total") and rng.integers(0, 4) == 0:
+            unset_group = None
+            if cls == "unset_basis_id":
+                unset_group = groups[j][0]
+            if cls == "unset_basis_id" or (cls in ("valid", "group_size", "not_a_qpd_gate", "gate_total") and rng.integers(0, 4) == 0):
                 # no map_ids: every gate carries its basis_id already (unset ids are C14/F5's business)
                 use_maps = False
                 for (g, _), m in zip(groups, base_maps):
                     for k in g:
-                        items[k][2 if items[k][0] == "q2" else 3] = m
+                        items[k][2 if items[k][0] == "q2" else 3] = int(m or 0) % len(dq_basis(items[k][1]).maps)
                 for it in items:
                     if it[0] == "q2" and it[2] is None:
                         it[2] = 0
-            yield cls, dict(nq=nq, items=items, ids=ids, maps=maps if use_maps else None, inplace=bool(rng.integers(0, 3)))
+                    if it[0] == "q1" and it[3] is None:
+                        it[3] = 0
+                if unset_group is not None:      # the later gate(s) of one decomposition keep basis_id None
+                    for k in unset_group[-1:] if rng.integers(0, 2) else unset_group:
+                        items[k][2 if items[k][0] == "q2" else 3] = None
+            yield cls, dict(nq=nq, items=items, ids=ids, maps=maps if use_maps else None,
+                            inplace=bool(rng.integers(0, 3)) or cls in ("unset_basis_id", "map_entry_none"),
+                            np_maps=bool(use_maps and rng.integers(0, 4) == 0))
 
 
 # --------------------------------------------------------------------------------------
